@@ -47,8 +47,10 @@ type task struct {
 }
 
 type key struct {
-	cache   *data
-	blocked []ids.ID
+	cache *data
+	// blocked holds the record of every Fetch call waiting for this key (not the tx ID: the same
+	// ID may be fetched twice in one block and each call has its own blocker count)
+	blocked []*tx
 }
 
 type data struct {
@@ -113,8 +115,7 @@ func (f *Fetcher) set(k string, v []byte, exists bool, chunks uint16) {
 	// Puts a key that was fetched from data into cache
 	key := f.keys[k]
 	key.cache = &data{v, exists, chunks}
-	for _, id := range key.blocked {
-		tx := f.txs[id]
+	for _, tx := range key.blocked {
 		tx.blockers--
 		if tx.blockers == 0 {
 			close(tx.waiter)
@@ -154,7 +155,9 @@ func (f *Fetcher) Fetch(ctx context.Context, txID ids.ID, keys []string) error {
 	for _, k := range keys {
 		d, ok := f.keys[k]
 		if !ok {
-			f.keys[k] = &key{blocked: []ids.ID{txID}}
+			nk := &key{}
+			nk.blocked = append(nk.blocked, tx)
+			f.keys[k] = nk
 			tasks = append(tasks, &task{
 				ctx: ctx,
 				key: k,
@@ -169,7 +172,7 @@ func (f *Fetcher) Fetch(ctx context.Context, txID ids.ID, keys []string) error {
 		}
 
 		// Register to get notified when the key is fetched
-		d.blocked = append(d.blocked, txID)
+		d.blocked = append(d.blocked, tx)
 		blockers++
 	}
 	if blockers > 0 {
